@@ -168,7 +168,8 @@ CHECKS["C16"] = dict(
     note=COMMON_NOTE + "powerset (powerset_eq_sublists: the element's doubling loop is List.sublists — exactly the sub-sequences, 2^n of them, no repetition for a "
          "duplicate-free list), permutations (n! lists, each a rearrangement), sublists (contiguous_mem: exactly the non-empty contiguous pieces, n(n+1)/2 of them), "
          "overlapping groups (windows_spec: window i = take k (drop i l), n+1-k of them) and run-length coding (rld_rle / rle_rld / rle_runs: inverse bijections between lists and lists of maximal runs) "
-         "are theorems now. Partial: the cartesian product (diagonal order) and what sorted() does are covered by the law "
+         "and the cartesian product (Model/Cartesian.lean follows the diagonal walk with its lhs_max / rhs_max bookkeeping, for lists and lazy lists; cartesian_diagonals: the output is the existing pairs "
+         "of diagonal 0, 1, 2, ... each by increasing left index; cartesian_perm: a rearrangement of the full product, every pair of positions once) are theorems now. Partial: what sorted() does is covered by the law "
          "oracles only (T5). Known finding F30: the empty product is 0.",
     technique="Lean 4 proof by induction on lists over loop-faithful models; differential correspondence; executable law oracles",
     ref="§5 C16")
